@@ -35,9 +35,9 @@ func (t *TargetHasher) SetTargetChangeHash(target *model.Target) error {
 	dependencies := t.graph.GetDependencies(target)
 	dependencyHashes := make([]string, len(target.Dependencies))
 	for index, dependency := range dependencies {
-		targetDependency, ok := dependency.(*model.Target)
-		if !ok {
-			// Only consider dependencies that are targets
+		// Dependencies that go through an alias contribute the output hash of the aliased target
+		targetDependency := t.graph.ResolveTarget(dependency)
+		if targetDependency == nil {
 			continue
 		}
 
